@@ -161,3 +161,16 @@ Proof.
   unfold m_set. rewrite (find_leaf_same s l t0 t Hv Hex SRoot segs), Hl. cbn [fst]. apply set_val_idem.
 Qed.
 Print Assumptions C19_repeat_leaf.
+
+(* C05 for leaf edits, read-back half: after a successful set on an existing leaf, the same path addresses the
+   same binding and it now holds the requested value *)
+Theorem C05_leaf_readback s segs l t0 t :
+  find_leaf s SRoot segs = Some l -> val_of s l = VAt t0 -> hget (hp s) l <> None ->
+  let s' := fst (m_set s segs (VAt t)) in
+  find_leaf s' SRoot segs = Some l /\ val_of s' l = VAt t.
+Proof.
+  intros Hl Hv Hex. cbv zeta. unfold m_set. rewrite Hl. cbn [fst]. split.
+  - rewrite (find_leaf_same s l t0 t Hv Hex SRoot segs). exact Hl.
+  - apply (val_new s l t Hex).
+Qed.
+Print Assumptions C05_leaf_readback.
